@@ -469,11 +469,47 @@ class CTranslator:
 # ---------------------------------------------------------------------------
 
 
+def rational_witness(e):
+    """For an expression built from + - * / and integer powers of symbols: a rational point at which it is not zero
+    (exact arithmetic), or None if it vanishes at two generic points / is not of that kind.  A witness proves that a
+    rational function is not identically zero without expanding it."""
+    e = sp.sympify(e)
+    if e.atoms(sp.Function) or any(not p.exp.is_Integer for p in e.atoms(sp.Pow)):
+        return None
+    syms = sorted(e.free_symbols, key=str)
+    for primes in ((2, 3, 5, 7, 11, 13, 17, 19, 23, 29, 31, 37, 41, 43), (53, 47, 59, 61, 67, 71, 73, 79, 83, 89, 97, 101, 103, 107)):
+        if len(syms) > len(primes):
+            return None
+        pt = {s_: sp.Rational(p_, 1) + sp.Rational(1, 1 + k_) for k_, (s_, p_) in enumerate(zip(syms, primes))}
+        try:
+            v = e.subs(pt)
+            v = sp.nsimplify(v) if not v.is_Rational else v
+        except Exception:
+            continue
+        if v.is_Rational and v != 0 and v.is_finite:
+            return {str(k_): str(x) for k_, x in pt.items()}, v
+    return None
+
+
 def is_zero(e, strategies=("cancel", "simplify", "boltzmann"), boltz=None) -> tuple[bool, str]:
     """Try to show e == 0 identically. Returns (ok, strategy or residual)."""
     e = sp.sympify(e)
     if e == 0:
         return True, "syntactic"
+    w = rational_witness(e)
+    if w is not None:
+        return False, f"non-zero ({w[1]}) at {w[0]}"[:200]
+    # rational functions are decided exactly by their numerator: a non-zero polynomial numerator means "not zero"
+    # (and saves the slow simplification strategies on unequal closed forms)
+    try:
+        if not e.atoms(sp.Function) and not e.atoms(sp.Pow) - {p for p in e.atoms(sp.Pow) if p.exp.is_Integer}:
+            num = sp.expand(sp.numer(sp.together(e)))
+            if num == 0:
+                return True, "rational"
+            if num.is_polynomial(*num.free_symbols):
+                return False, str(sp.factor_terms(num))[:200]
+    except Exception:
+        pass
     for s in strategies:
         try:
             if s == "cancel":
